@@ -912,7 +912,8 @@ class BlockNode(AstNode, NamespaceMixin):
         self.classes = parent.classes
         self.enums = parent.enums
         self.functions = parent.functions
-        self.namespaces = parent.namespaces
+        # A ClassNode has no namespaces.
+        self.namespaces = getattr(parent, "namespaces", [])
         self.typedefs = parent.typedefs
         self.variables = parent.variables
         self.scope = parent.scope
